@@ -10,4 +10,12 @@ MCLensFine    == {12, 50}
 MCChunksReal  == {100, 40000, 140000, 1073741824}
 MCLensReal    == {13, 32, 33000, 66000}
 MCLensReal3   == {13, 33000, 66000}
+MCChunksTorn  == {100, 1073741824}
+MCLensTorn    == {13, 40}
+(* torn-tail histories: appends, Stop, Tear, Restart directly after the Tear, appends, Stop;
+   only the complete ones are exported *)
+TornOK == \A i \in 1..Len(hist') : hist'[i].a = "Restart" => (i > 1 /\ hist'[i - 1].a = "Tear")
+TornDone == /\ hist'[Len(hist')].a = "Stop"
+            /\ \E i, j \in 1..Len(hist') : i < j /\ hist'[i].a = "Restart" /\ hist'[j].a = "Append"
+ExportTorn == TornOK /\ (IF TornDone THEN PrintT(<<"BEH", ToJson(hist')>>) ELSE TRUE)
 ===============================================================================
